@@ -186,8 +186,10 @@ def _calibration(ctx, N, cls):
             # the random first pick is one of the samples: a single randint over the number of samples
             from ..apitable import dim_term as _dim_term
 
+            from ..terms import const as _c0
+
             draws = [x for x in tq.walk_all(sel.term) if x.op == "rng" and x.args[1] == "randint"]
-            okb = bool(draws) and all(x.args[2] and x.args[2][0] == _dim_term(Dim.of("N")) for x in draws)
+            okb = bool(draws) and all(tq.randint_range(x) == (_c0(0), _dim_term(Dim.of("N"))) for x in draws)
             ctx.ob("R-INDEXSPACE", "the random initial pick is drawn among the samples (randint over the number of samples)", okb, f"selected_idx_ = {repr(sel.term)[:200]}", site, vname)
     # calibrated switching point together with a random first pick: the pick is drawn from a stream
     # that the timing trials have not advanced
